@@ -288,6 +288,8 @@ def straightline_return(func: ast.AST) -> Optional[ast.AST]:
             continue
         if isinstance(s, ast.Assert):
             continue
+        if isinstance(s, ast.Expr) and isinstance(s.value, ast.Call):
+            continue  # a call for its effect (validation); it does not rebind a local
         if isinstance(s, ast.Assign) and len(s.targets) == 1:
             t = s.targets[0]
             v = inline_locals(s.value, env)
@@ -300,6 +302,12 @@ def straightline_return(func: ast.AST) -> Optional[ast.AST]:
                         env[e.id] = v.elts[i]
                     else:
                         env[e.id] = ast.Subscript(value=v, slice=ast.Constant(value=i), ctx=ast.Load())
+                continue
+            if isinstance(t, ast.Subscript) and isinstance(t.value, ast.Name):
+                # in-place store into a local array: model as a new value __store__(old, index, value)
+                old = env.get(t.value.id, ast.Name(id=t.value.id, ctx=ast.Load()))
+                env[t.value.id] = ast.Call(func=ast.Name(id="__store__", ctx=ast.Load()),
+                                           args=[old, inline_locals(t.slice, env), v], keywords=[])
                 continue
             return None
         if isinstance(s, ast.Return) and s.value is not None:
